@@ -298,6 +298,7 @@ class MockSock(object):
         self.client = client
         self.fifo = []
         self.capacity = 128          # datagrams (an OS socket buffer holds ~140 full-size datagrams)
+        self.fail_rate = 0.0         # probability that sendto() raises OSError
 
     def sendto(self, datagram, addr):
         c = self.client
@@ -307,6 +308,11 @@ class MockSock(object):
             c.world.misdirected.append((c.world.clock.now, c.addr, tuple(addr[:2]), len(datagram), c.last_origin))
             return
         c.world.on_wire("c2s", c.addr, bytes(datagram), c)
+        if self.fail_rate and c.world.fault_rng.random() < self.fail_rate:
+            # the operating system refuses the datagram (ENOBUFS): the library built and registered it, it never leaves the host -
+            # to the monitors a datagram lost on the first hop; to the application an OSError out of update()
+            c.world.counters.inc("client_sendto_failed")
+            raise OSError(105, "No buffer space available")
         c.world.net.send("c2s", c.addr, bytes(datagram))
 
     def recvfrom(self, n):
@@ -551,6 +557,8 @@ class World(object):
         self.tick_hooks = []        # fn(world) after every driver step
         self.clients = []
         self.clients_by_addr = {}
+        import random as _random
+        self.fault_rng = _random.Random(0xFA17)      # faults injected at the socket do not consume the workload's randomness
         self.misdirected = []        # (t, client addr, destination, bytes, origin of the last datagram read) - datagrams a client sent elsewhere
         self.root_key = root_key or EllipticCurvePrivateKey.new()
         self.root_pub = self.root_key.getPublicKey()
